@@ -170,6 +170,9 @@ def run_tlc(module, cfg=None, files=None, workers=16, timeout=600, simulate=None
     if "Error:" in p.stdout and not r.violated:
         idx = p.stdout.index("Error:")
         r.error = p.stdout[idx: idx + 3000]
+    if workers != 1 and simulate is None:
+        # several workers print in no fixed order: a canonical order, so that any selection by index downstream is reproducible
+        r.printed.sort(key=lambda d_: json.dumps(d_, sort_keys=True))
     if expect_json_lines is not None and len(r.printed) != expect_json_lines:
         raise MachineryError(f"expected {expect_json_lines} JSON lines from TLC, got {len(r.printed)}")
     r.ok = (not r.violated) and r.error is None and ("Model checking completed. No error has been found." in p.stdout
